@@ -7,6 +7,12 @@
 // dq_items_tail (obj 2), dq_items_head (obj 3) and on each client thread's stack (obj = gettid of that thread: the
 // thread event dte_value of the dispatch_sync_context_s that lives on the waiter's stack, plus the do_next link of that
 // context), and the harness-level marks CALL / RET / CALLOUT_BEGIN / CALLOUT_END.
+// Order oracle (C02, any mix of submission kinds): client threads also submit dispatch_async_f items between their
+// synchronous calls; an item must not start before the previous item submitted by the same thread has finished, and
+// (post-hoc, on the stamps) before any item whose submission call had returned before its own call began has finished.
+// mix == 10: the fixed overtake schedule of libdispatch 43b9c73 (see harness/c04_overtake.c), recorded: a worker is held
+// at the load of drain_try_unlock, an enqueuer is held after its tail exchange, the main thread submits x2 with
+// dispatch_async_f and then calls dispatch_sync_f: with the tail test in the fast path the call queues behind x2.
 // usage: c05_sync <seed> <calls_per_thread> <perturb_permille> <nclients> <nfeeders> [mix]
 // output: "T <thread#> <gettid> <role>" lines, "FAIL <what>" lines of the API-level oracle, "S <stats>", then the dump.
 #include "internal.h"
@@ -24,14 +30,17 @@ typedef struct item {
 	uint64_t pay[NPAY], paysum;                   // written (plain) by the submitter before submission
 	uint64_t out[NPAY], outsum;                   // written (plain) by the item, read by the submitter after return
 	long ran_on;
+	struct item *prev;                            // the item submitted just before by the same thread (any kind)
 } item_t;
+#define MAXITEMS (1 << 20)
+static item_t *all_items[MAXITEMS];
 
 static dispatch_queue_t q;
 static _Atomic uint64_t stamp; static uint64_t now(void) { return atomic_fetch_add(&stamp, 1) + 1; }
 static _Atomic int inside;                       // items of q currently inside their function
 static struct { uint64_t n, hash; } chain;       // plain record handed from item to item on the serial queue
 static _Atomic int nfail; static _Atomic long n_items, n_async_done, n_async_sub;
-static _Atomic long st_self_run, st_drainer_run, st_overlap, st_early, st_chain, st_pay;
+static _Atomic long st_self_run, st_drainer_run, st_overlap, st_early, st_chain, st_pay, st_order;
 static int ncalls, nclients, nfeeders, mix;
 static volatile int stop_feed;
 
@@ -46,6 +55,9 @@ static void item_fn(void *ctx) {
 	int in = atomic_fetch_add(&inside, 1);
 	if (in != 0) { atomic_fetch_add(&st_overlap, 1); FAIL("overlap: item %d (kind %d) started while %d other item(s) of the serial queue were running", it->serial, it->kind, in); }
 	if (atomic_fetch_add(&it->runs, 1) != 0) FAIL("item %d (kind %d) ran more than once", it->serial, it->kind);
+	if (it->prev && atomic_load(&it->prev->t_end) == 0) { atomic_fetch_add(&st_order, 1);
+		FAIL("order: item %d (kind %d) started before item %d (kind %d), submitted earlier by the same thread (call returned), had finished",
+			it->serial, it->kind, it->prev->serial, it->prev->kind); }
 	it->ran_on = me;
 	// memory written before submission is visible to the item
 	uint64_t s = 0; for (int i = 0; i < NPAY; i++) s = mixh(s ^ it->pay[i]);
@@ -68,6 +80,7 @@ static void item_fn(void *ctx) {
 static item_t *mk_item(int kind, uint64_t *rng, long me) {
 	item_t *it = (item_t *)calloc(1, sizeof *it);
 	it->kind = kind; it->serial = (int)atomic_fetch_add(&n_items, 1); it->owner = me;
+	if (it->serial < MAXITEMS) all_items[it->serial] = it;
 	uint64_t s = 0; for (int i = 0; i < NPAY; i++) { it->pay[i] = xs(rng); s = mixh(s ^ it->pay[i]); }
 	it->paysum = s;
 	return it;
@@ -82,21 +95,28 @@ static void track_my_stack(long me) {
 	dv_track(lo, sz, (int)me);
 }
 
+static void submit_async(item_t *it) {
+	atomic_fetch_add(&n_async_sub, 1);
+	it->t_submit = now();
+	dv_user(DVU_CALL, K_ASYNC, (unsigned long long)it->serial, 0);
+	dispatch_async_f(q, it, item_fn);
+	dv_user(DVU_RET, K_ASYNC, (unsigned long long)it->serial, 0);
+	it->t_ret = now();
+}
+
 static void *client(void *arg) {
 	targ_t *t = (targ_t *)arg; long me = (long)syscall(SYS_gettid);
 	static pthread_mutex_t mu = PTHREAD_MUTEX_INITIALIZER;
 	pthread_mutex_lock(&mu); track_my_stack(me); printf("T %d %ld %s\n", t->idx, me, t->role ? "feeder" : "client"); pthread_mutex_unlock(&mu);
 	pthread_barrier_wait(&bar);
+	item_t *last = NULL;
 	if (t->role) {   // feeder: keeps the queue busy with asynchronous items, in bursts
 		while (!stop_feed) {
 			int burst = 1 + (int)(xs(&t->rng) % 6);
 			for (int b = 0; b < burst; b++) {
 				item_t *it = mk_item(K_ASYNC, &t->rng, me);
-				atomic_fetch_add(&n_async_sub, 1);
-				dv_user(DVU_CALL, K_ASYNC, (unsigned long long)it->serial, 0);
-				it->t_submit = now();
-				dispatch_async_f(q, it, item_fn);
-				dv_user(DVU_RET, K_ASYNC, (unsigned long long)it->serial, 0);
+				it->prev = last; last = it;
+				submit_async(it);
 			}
 			while (atomic_load(&n_async_sub) - atomic_load(&n_async_done) > 40 && !stop_feed) usleep(50);
 			if (xs(&t->rng) & 1) usleep((useconds_t)(xs(&t->rng) % 150));
@@ -106,15 +126,19 @@ static void *client(void *arg) {
 	for (int c = 0; c < ncalls; c++) {
 		uint64_t r = xs(&t->rng);
 		int kind = mix ? mix : 1 + (int)(r % 3);
+		for (int na = (int)((r >> 24) % 4) - 1; na > 0; na--) {   // 0..2 asynchronous items of this thread ahead of the call
+			item_t *ia = mk_item(K_ASYNC, &t->rng, me); ia->prev = last; last = ia; submit_async(ia);
+		}
 		item_t *it = mk_item(kind, &t->rng, me);
+		it->prev = last; last = it;
 		if ((r >> 8) % 5 == 0) usleep((useconds_t)((r >> 16) % 120));
-		dv_user(DVU_CALL, kind, (unsigned long long)it->serial, 0);
 		it->t_submit = now();
+		dv_user(DVU_CALL, kind, (unsigned long long)it->serial, 0);
 		if (kind == K_SYNC) dispatch_sync_f(q, it, item_fn);
 		else if (kind == K_BSYNC) dispatch_barrier_sync_f(q, it, item_fn);
 		else dispatch_async_and_wait_f(q, it, item_fn);
-		it->t_ret = now();
 		dv_user(DVU_RET, kind, (unsigned long long)it->serial, 0);
+		it->t_ret = now();
 		// the call returns only after its item has finished, exactly once
 		uint64_t te = atomic_load(&it->t_end);
 		if (atomic_load(&it->runs) != 1) FAIL("%s of item %d returned with run count %d", kind == K_AAW ? "dispatch_async_and_wait" : "dispatch_sync", it->serial, atomic_load(&it->runs));
@@ -170,11 +194,109 @@ static int retarget_scenario(uint64_t seed, int rounds) {
 	return atomic_load(&nfail) ? 1 : 0;
 }
 
+// ---- post-hoc real-time order check on the stamps: if A's call returned before B's call began, A finished before B started
+typedef struct { uint64_t ret, end; int serial; } rt_t;
+static int rt_cmp(const void *a, const void *b) { uint64_t x = ((const rt_t *)a)->ret, y = ((const rt_t *)b)->ret; return x < y ? -1 : x > y; }
+static void order_check(void) {
+	long n = atomic_load(&n_items); if (n > MAXITEMS) n = MAXITEMS;
+	rt_t *v = (rt_t *)calloc((size_t)n + 1, sizeof *v); long m = 0, judged = 0; int shown = 0;
+	for (long i = 0; i < n; i++) { item_t *a = all_items[i]; if (a && a->t_ret) { v[m].ret = a->t_ret; v[m].end = atomic_load(&a->t_end) ? atomic_load(&a->t_end) : UINT64_MAX; v[m].serial = a->serial; m++; } }
+	qsort(v, (size_t)m, sizeof *v, rt_cmp);
+	for (long i = 1; i < m; i++) if (v[i].end < v[i - 1].end) { v[i].end = v[i - 1].end; v[i].serial = v[i - 1].serial; }   // prefix maximum of the end stamps
+	for (long i = 0; i < n; i++) { item_t *b = all_items[i]; if (!b || !atomic_load(&b->t_begin)) continue;
+		long lo = 0, hi = m; while (lo < hi) { long mid = (lo + hi) / 2; if (v[mid].ret < b->t_submit) lo = mid + 1; else hi = mid; }
+		if (lo == 0) continue;
+		judged++;
+		if (v[lo - 1].end > atomic_load(&b->t_begin)) { atomic_fetch_add(&st_order, 1);
+			if (shown++ < 3) FAIL("order: item %d (kind %d) started (stamp %llu) although item %d, whose submission call had returned before the call of item %d began, had not finished",
+				b->serial, b->kind, (unsigned long long)atomic_load(&b->t_begin), v[lo - 1].serial, b->serial); } }
+	printf("O judged=%ld returned=%ld violations=%ld\n", judged, m, atomic_load(&st_order));
+	free(v);
+}
+
+// ---- mix == 10: the fixed overtake schedule (two threads are held inside the hook at one atomic operation each) ----
+static dispatch_lane_t ot_dl; static pthread_t ot_u, ot_o; static _Atomic int o_known, z0_go, z0_done, o_held, release_o, u_held, release_u;
+static void ot_cb(const volatile void *addr, unsigned size, int kind, int order, unsigned long long a, unsigned long long b,
+		int ok, const char *file, int line) {
+	dv_cb(addr, size, kind, order, a, b, ok, file, line);
+	if (!ot_dl) return;
+	if ((uintptr_t)addr == (uintptr_t)&ot_dl->dq_items_tail && kind != 1 && atomic_load(&o_held) && pthread_equal(pthread_self(), ot_u)) {
+		if (atomic_exchange(&u_held, 1)) return;
+		for (int k = 0; k < 100000 && !atomic_load(&release_u); k++) usleep(50);
+	} else if ((uintptr_t)addr == (uintptr_t)&ot_dl->dq_state && kind == 1 && atomic_load(&o_known) && atomic_load(&z0_done) &&
+			pthread_equal(pthread_self(), ot_o)) {
+		if (atomic_exchange(&o_held, 1)) return;
+		for (int k = 0; k < 100000 && !atomic_load(&release_o); k++) usleep(50);
+	}
+}
+static void ot_z0(void *c) {
+	(void)c; dv_user(DVU_CALLOUT_BEGIN, K_ASYNC, 0, 0); now();
+	ot_o = pthread_self(); atomic_store(&o_known, 1);
+	for (int k = 0; k < 100000 && !atomic_load(&z0_go); k++) usleep(50);
+	dv_user(DVU_CALLOUT_END, K_ASYNC, 0, 0); atomic_store(&z0_done, 1);
+}
+static void *ot_u_main(void *a) {
+	uint64_t rng = 12345; long me = (long)syscall(SYS_gettid); (void)a;
+	printf("T 1 %ld client\n", me); fflush(stdout);
+	item_t *x1 = mk_item(K_ASYNC, &rng, me); submit_async(x1); return NULL;
+}
+static void *ot_releaser(void *a) { (void)a; usleep(300000); atomic_store(&release_u, 1); return NULL; }
+static int overtake_scenario(uint64_t seed) {
+	uint64_t rng = mixh(seed) | 1; long me = (long)syscall(SYS_gettid);
+	chain.n = 0; chain.hash = mixh(7);
+	q = dispatch_queue_create("c05.overtake", NULL);
+	dispatch_lane_t dl = (dispatch_lane_t)q; uint64_t idle = dl->dq_state;
+	printf("Q state=%llu width=%u\n", (unsigned long long)dl->dq_state, (unsigned)dl->dq_width);
+	printf("T 0 %ld client\n", me);
+	dv_track(&dl->dq_state, sizeof(uint64_t), 1); dv_track(&dl->dq_items_tail, sizeof(void *), 2); dv_track(&dl->dq_items_head, sizeof(void *), 3);
+	track_my_stack(me);
+	dv_install(seed, 0); ot_dl = dl; _dispatch_verif_cb = ot_cb;
+	pthread_t wd; pthread_create(&wd, NULL, watchdog, NULL);
+	// z0: a worker takes the drain lock, runs it, finds the list empty and is held at the load of drain_try_unlock
+	dv_user(DVU_CALL, K_ASYNC, 0, 0); dispatch_async_f(q, NULL, ot_z0); dv_user(DVU_RET, K_ASYNC, 0, 0);
+	for (int k = 0; k < 100000 && !atomic_load(&o_known); k++) usleep(50);
+	atomic_store(&z0_go, 1);
+	for (int k = 0; k < 100000 && !atomic_load(&o_held); k++) usleep(50);
+	// U: dispatch_async(x1), held after its exchange of dq_items_tail (it owes the wakeup)
+	pthread_create(&ot_u, NULL, ot_u_main, NULL);
+	for (int k = 0; k < 100000 && !atomic_load(&u_held); k++) usleep(50);
+	// V (this thread): dispatch_async(x2): the list is not empty and no override is needed: no wakeup; the call returns
+	item_t *x2 = mk_item(K_ASYNC, &rng, me); submit_async(x2);
+	atomic_store(&release_o, 1);
+	int is_idle = 0; for (int k = 0; k < 20000 && !(is_idle = (*(volatile uint64_t *)&dl->dq_state == idle)); k++) usleep(50);
+	int reached = atomic_load(&o_held) && atomic_load(&u_held) && is_idle;
+	pthread_t rt; pthread_create(&rt, NULL, ot_releaser, NULL);   // U goes on 300 ms later
+	// V: dispatch_sync(b): must not run before x2
+	item_t *b = mk_item(K_SYNC, &rng, me); b->prev = x2;
+	b->t_submit = now();
+	dv_user(DVU_CALL, K_SYNC, (unsigned long long)b->serial, 0);
+	dispatch_sync_f(q, b, item_fn);
+	dv_user(DVU_RET, K_SYNC, (unsigned long long)b->serial, 0);
+	b->t_ret = now();
+	int u_released_at_b = atomic_load(&release_u);
+	if (atomic_load(&b->runs) != 1) FAIL("dispatch_sync of item %d returned with run count %d", b->serial, atomic_load(&b->runs));
+	pthread_join(rt, NULL); pthread_join(ot_u, NULL);
+	for (int i = 0; i < 40000 && atomic_load(&n_async_done) < atomic_load(&n_async_sub); i++) usleep(250);
+	if (atomic_load(&n_async_done) != atomic_load(&n_async_sub)) FAIL("%ld of %ld asynchronous items never ran", atomic_load(&n_async_sub) - atomic_load(&n_async_done), atomic_load(&n_async_sub));
+	uint64_t fin = 0; for (int i = 0; i < 20000; i++) { fin = *(volatile uint64_t *)&dl->dq_state; if (fin == idle) break; usleep(100); }
+	usleep(20000);
+	atomic_store(&dv_enabled, 0);
+	order_check();
+	printf("OT schedule_reached=%d o_held=%d u_held=%d idle_word_with_items=%d u_released_when_sync_returned=%d\n", reached,
+			atomic_load(&o_held), atomic_load(&u_held), is_idle, u_released_at_b);
+	printf("S items=%ld async=%ld self_run=%ld drainer_run=%ld overlap=%ld early=%ld chain=%ld payload=%ld final_state=%llu fails=%d\n",
+			atomic_load(&n_items), atomic_load(&n_async_sub), atomic_load(&st_self_run), atomic_load(&st_drainer_run),
+			atomic_load(&st_overlap), atomic_load(&st_early), atomic_load(&st_chain), atomic_load(&st_pay), (unsigned long long)fin, atomic_load(&nfail));
+	dv_dump(stdout);
+	return atomic_load(&nfail) ? 1 : 0;
+}
+
 int main(int argc, char **argv) {
 	uint64_t seed = argc > 1 ? strtoull(argv[1], 0, 10) : 1; ncalls = argc > 2 ? atoi(argv[2]) : 100;
 	int permille = argc > 3 ? atoi(argv[3]) : 150; nclients = argc > 4 ? atoi(argv[4]) : 6; nfeeders = argc > 5 ? atoi(argv[5]) : 1;
 	mix = argc > 6 ? atoi(argv[6]) : 0;
 	if (nclients + nfeeders > MAXT) return 2;
+	if (mix == 10) return overtake_scenario(seed);
 	if (mix == 9) { dv_install(seed, permille); pthread_t wd0; pthread_create(&wd0, NULL, watchdog, NULL); return retarget_scenario(seed, ncalls); }
 	chain.n = 0; chain.hash = mixh(7);
 	q = dispatch_queue_create("c05.serial", NULL);
@@ -198,6 +320,7 @@ int main(int argc, char **argv) {
 	uint64_t idle = dl->dq_state; for (int i = 0; i < 20000; i++) { idle = *(volatile uint64_t *)&dl->dq_state; if ((idle & 0x3fffffffull) == 0 && !(idle & 0x80000000ull)) break; usleep(100); }
 	usleep(20000);
 	atomic_store(&dv_enabled, 0);
+	order_check();
 	if (chain.n != (uint64_t)atomic_load(&n_items)) FAIL("chain count %llu differs from the number of items %ld", (unsigned long long)chain.n, atomic_load(&n_items));
 	printf("S items=%ld async=%ld self_run=%ld drainer_run=%ld overlap=%ld early=%ld chain=%ld payload=%ld final_state=%llu fails=%d\n",
 			atomic_load(&n_items), atomic_load(&n_async_sub), atomic_load(&st_self_run), atomic_load(&st_drainer_run),
